@@ -84,6 +84,17 @@ def sums_worker(case, led):
                 led.check(ok, f"frame:{fn}:mutating_result_leaves_operands", fn, f"in-place scale + canonicalise of the result of {opname} changed an operand", key + (opname, "mut"),
                           {"op": opname}, dict(rep, op=opname))
 
+        # chain -> tree conversion: the tree state is a new object whatever gauge the chain is in (a left-canonical chain needs no rewriting - it still is not shared)
+        try:
+            from renormalizer.tn.tree import from_mps
+            for gname, src in (("as built", a.copy()), ("left-canonical", a.copy().ensure_left_canonical()), ("right-canonical", a.copy().ensure_right_canonical())):
+                sd = S.dense(src).copy()
+                _b, tt, _o = from_mps(src)
+                tt.scale(3.0, inplace=True)
+                led.check(np.abs(S.dense(src) - sd).max() <= 1e-12, "frame:from_mps:mutating_the_tree_leaves_the_chain", "from_mps",
+                          f"{gname} chain: rescaling the converted tree state in place changed the chain by {np.abs(S.dense(src) - sd).max():.2e}", key + ("from_mps", gname), {"gauge": gname}, dict(rep, gauge=gname))
+        except Exception as e:
+            led.ok("skipped:from_mps:raised", "from_mps", key + ("from_mps", type(e).__name__), nontrivial=False)
         # bond-dimension expansion (the drivers call it with include_ex=False): the input is an unnormalised state with a prefactor - it keeps its vector
         b = a.scale(3.0)
         b.coeff = 2.0
